@@ -57,6 +57,12 @@ class FactoryRun:
                 if task_status is not None:
                     # a task that takes `task_status`: start_task() returns only once it has called started()
                     await anyio.sleep(delay * TICK)
+                    if spec.get("startFails") is not None:
+                        # fails while it is still starting: before it has reported started()
+                        run.log("taskEnded", h, spec["startFails"])
+                        e = EXN[spec["startFails"]]()
+                        e.h = h
+                        raise e
                     task_status.started(("started", h))
                     run.log("startedCalled", h)
                 if "ends" in spec["beh"]:
@@ -105,6 +111,23 @@ class FactoryRun:
 
     async def spawn_async(self, h: int) -> None:
         self.log("spawn", h)
+        spec = self.specs[h]
+        if spec.get("abandonAt") is not None:
+            # the caller gives up waiting for started(): the start is abandoned and the half-started task is told
+            # to stop (cancelled with its caller)
+            self.log("cancelReq", h)
+            with anyio.move_on_after(spec["abandonAt"] * TICK) as scope:
+                await self.factory.start_task(self.make_body(h), f"t{h}")
+            if not scope.cancelled_caught:
+                self.log("probeFailed", h, "start_task() returned although the task had not called started() yet")
+            return
+        if spec.get("startFails") is not None:
+            try:
+                await self.factory.start_task(self.make_body(h), f"t{h}")
+                self.log("probeFailed", h, "start_task() returned normally although the task failed before started()")
+            except Exception:  # noqa: BLE001 - the task's own exception, or anyio's complaint after the handler swallowed it
+                self.log("startFailed", h)
+            return
         handle = await self.factory.start_task(self.make_body(h), f"t{h}")
         self.handles[h] = handle
         want = ("started", h) if self.specs[h].get("startDelay") else None
